@@ -30,9 +30,6 @@ THEOREMS = [
     "Lena.C16.run_empty",
     "Lena.C16.seq_run_blocks",
     # ... for ANY wrapped element: Run elements that do not read their whole block (notes/C16_defect_1)
-    "Lena.C16.run_blocks_partial",
-    "Lena.C16.run_blocks_buffer_input",
-    "Lena.C16.not_run_blocks_full",
     "Lena.C16.run_blocks_after_patch",
     # through fill() with request() at arbitrary points: accounted once, equal to run (yield_on_remainder off)
     "Lena.C16.schedule_independent",
@@ -58,6 +55,10 @@ THEOREMS = [
 # transcriptions of one docstring), model-internal glue between definitions, closed witnesses, facts that are true by
 # construction of the model, statements about the adapter variant that keeps generator objects (not code of /repo)
 AUX_THEOREMS = [
+    # about `_run_run` as it was before fix dbe92ef (pinned transcription `runRunP`): the clause was false, and what held
+    "Lena.C16.not_run_blocks_full",
+    "Lena.C16.run_blocks_partial",
+    "Lena.C16.run_blocks_buffer_input",
     "Lena.C16.init_bufsize_pos",
     "Lena.C16.init_accepts_iff",
     "Lena.C16.init_accepts_iff_contract",
@@ -105,9 +106,8 @@ ASSUMPTIONS = [
     "(where the statement still holds, results snapshotted when yielded), not for buffer_output under fill/request",
     "the only exception a wrapped element raises is LenaStopFill from fill (modelled in Model/C16X.lean); an exception from "
     "el.request() in the middle of its results is not modelled",
-    "a Run element may read only part of its block (Model/C16P.lean; notes/C16_defect_1.md: the code handles it only with "
-    "buffer_input — reported as VIOLATION until the patch is applied); an element that reads nothing while the adapter's "
-    "stale count keeps the loop going is cut off by the model's fuel and the harness watchdog",
+    "a Run element may read only part of its block (Model/C16P.lean transcribes _run_run as fixed by dbe92ef, "
+    "notes/C16_defect_1.md; the transcription of the code before the fix is kept, pinned, for the counterexamples)",
     "internal attributes _n_count, _buffer_in, _buffer_out are compared (their sizes): the property names them under "
     "observe_at and its last clause is about them; a rewrite that renames them needs _sizes() in the harness adapted",
     "a mutable wrapped element is a state threaded through fill/request/reset/run; flow values are opaque to the adapter "
@@ -147,9 +147,6 @@ RULE = ("thorough, exhaustive: FillRequest.__init__ for every subset of {run,fil
         "FillCompute sibling with copy_buf on/off; Run elements that read 0..3 values of their block. "
         "Non-trivial: at least one result yielded or an exception.")
 CASE_TIMEOUT = 5
-# set to True when notes/C16_defect_1.patch is applied to /repo: the "runp" cases are then compared with the model of the
-# patched `_run_run` (driver field "fixed", theorem run_blocks_after_patch) instead of `runRunP` (the code as it is now)
-RUNP_PATCHED = bool(os.environ.get("C16_RUNP_PATCHED"))
 
 KINDS_FILL = ("fc", "fr", "both")          # kinds that have fill/request on the adapter
 KINDS_RUN = ("run", "map", "fc", "fr", "frc", "both", "frseq")
@@ -879,11 +876,12 @@ def compare(case, res, replies):
             return f"impl {res['r']} raised={res['raised']} vs model {m['r']} raised={m['raised']}"
         return None
     if op == "runp":
-        if RUNP_PATCHED:
-            return None if res["r"] == m["fixed"] else f"impl {res['r']} vs model of the patched _run_run {m['fixed']}"
-        if m["spin"]:
-            return f"the model's _run_run loop does not end on this case (model {m}); impl returned {res['r']}"
-        return None if res["r"] == m["r"] else f"impl {res['r']} vs model {m['r']}"
+        if res["r"] != m["r"]:
+            return f"impl {res['r']} vs model {m['r']}"
+        if m["spec"] != res["r"]:
+            # the right-hand side of theorem run_blocks_after_patch, evaluated by the driver
+            return f"impl {res['r']} vs block specification for a Run element {m['spec']}"
+        return None
     if res["r"] != m["r"]:
         return f"impl {res['r']} vs model {m['r']}"
     if op == "run":
@@ -1292,8 +1290,7 @@ def gen_cases(ctx):
     ctx.notes = (["thorough: the scope of the property's quantifier (flows 0..8, bufsize 1..5, every request schedule, "
                   "every flag combination, Split bufsizes) is enumerated completely; only the schedules for flows "
                   "9..40 and the long histories with reset()/LenaStopFill are sampled"] if thorough else
-                 ["notes/C16_defect_1: the runp cases (Run element reading part of its block) fail on /repo until the patch "
-                  "is applied", "quick: every request schedule of flows 0..6 (1-result element) enumerated; flows of length 7 and 8, "
+                 ["quick: every request schedule of flows 0..6 (1-result element) enumerated; flows of length 7 and 8, "
                   "the 2-result / state-changing elements and the histories with reset()/LenaStopFill sampled — "
                   "the thorough tier enumerates them"])
     # --- __init__ ---------------------------------------------------------------------------
@@ -1551,7 +1548,7 @@ def signature(case, failure):
     if case["op"] == "init":
         return "init:" + ",".join(f"{k}={case[k]}" for k in sorted(case) if k != "op")
     if case["op"] == "runp":
-        # one finding (notes/C16_defect_1): a Run element that reads only part of its block
+        # (the finding fixed by dbe92ef, notes/C16_defect_1): a Run element that reads only part of its block
         return "runp:run-element-reads-part-of-its-block"
     extra = ""
     if case["op"] in ("opsx", "splitx", "runx"):
@@ -1607,9 +1604,9 @@ def shrink(case):
 LEVEL_TEXT = ("Lean 4 theorems about a hand-transcribed model of FillRequest (__init__, fill, request, reset, the run loops), "
               "FillRequestSeq and the schedule of calls Split makes on a fill/request branch, for an abstract wrapped element "
               "with value semantics, every block size, flow and history of fill/request calls (no bound). PROVED: run equals "
-              "the block specification for fill/compute and fill/request elements and for Run elements that read their whole "
-              "block (for Run elements that stop reading early only with buffer_input: the full clause is false of the code, "
-              "proved negation, notes/C16_defect_1, reported as VIOLATION until patched); any request schedule closed by a "
+              "the block specification for fill/compute and fill/request elements and for every Run element, however little "
+              "of its block it reads (since fix dbe92ef of /repo, notes/C16_defect_1; for the code before it the clause is "
+              "proved false on a witness); any request schedule closed by a "
               "request yields what run yields, also as driven by Split with any block size (for elements that also have run: "
               "under the hypothesis that their run is fill-then-request; proved negation without it); every value is "
               "accounted exactly once (all flags); with yield_on_remainder the results are the blocks of each segment; right "
@@ -1625,7 +1622,7 @@ LEVEL_TEXT = ("Lean 4 theorems about a hand-transcribed model of FillRequest (__
 LEVEL_NOTE = ("Trusted: Lean kernel (+ propext, Classical.choice, Quot.sound); the hand transcription, validated only on the "
               "generated cases; iterator and generator semantics as transcribed; the JSON protocol. Not verified: real "
               "termination (watchdogs only); results with reference semantics (assumed away, notes/C16_judgement_1); "
-              "Split.run itself (C03). 25 property theorems + 14 supporting ones (AUX_THEOREMS: constructor contract, glue "
+              "Split.run itself (C03). 22 property theorems + 17 supporting ones (AUX_THEOREMS: constructor contract, glue "
               "between model functions, closed witnesses, the generator-keeping adapter variant).")
 TECHNIQUE = "Lean 4 proof over hand-written model + exhaustive-in-scope correspondence check"
 DESIGN_REF = "DESIGN.md section 3, C16"
